@@ -3,11 +3,12 @@ use vmon::refm::install_quiet_panic_hook;
 use vmon::report::{Args, Report};
 
 fn main() {
-    if std::env::var_os("VMON_NOOP").is_some() {
-        // used by `./check build miri` to compile the binary under the interpreter
+    let args = Args::parse();
+    if args.get("noop").is_some() {
+        // used by `./check build miri` to compile the binary under the interpreter (an argument, not an
+        // environment variable: cargo-miri replays the build-time environment at run time)
         return;
     }
-    let args = Args::parse();
     let out = args.str("out", "-");
     let mode = args.str("mode", "lin");
     install_quiet_panic_hook();
@@ -36,4 +37,6 @@ fn main() {
         }
     }
     rep.write(&out);
+    // let pool threads of the last history finish terminating before exit-time leak checks run
+    std::thread::sleep(std::time::Duration::from_millis(60));
 }
